@@ -57,6 +57,7 @@ type FuncContract struct {
 	Ghost    []GhostVar
 	Sweep     bool     // synthesised by a zero-annotation no-panic sweep
 	UnboxNonNil bool   // assumption: pointers extracted from interface values are non-nil
+	AssumePre   bool   // preconditions of callees are assumed, not checked, in this unit (reported)
 	ModExcept []string // "modifies everything except T1, T2": type texts
 	Preserves []string // types whose heaps uncontracted calls in this function never modify (assumption)
 	used     bool
@@ -112,7 +113,7 @@ var clauseKeywords = map[string]bool{"func": true, "iface": true, "requires": tr
 	"nopanic": true, "inline": true, "pure": true, "panics": true, "loop": true, "prop": true, "pred": true,
 	"uf": true, "at": true, "assumed": true, "trusted": true, "expect": true, "math": true, "fresh": true,
 	"axiom": true, "ghost": true, "havoc": true, "alias": true, "end": true,
-	"ghostfield": true, "define": true, "view": true, "ghostscalar": true, "deterministic": true, "globalinv": true, "preserves": true, "sweep": true, "unboxnonnil": true}
+	"ghostfield": true, "define": true, "view": true, "ghostscalar": true, "deterministic": true, "globalinv": true, "preserves": true, "sweep": true, "unboxnonnil": true, "assumepre": true}
 
 var labelRe = regexp.MustCompile(`^(requires|ensures|invariant)\[([A-Za-z0-9_.:-]+)\]`)
 
@@ -279,6 +280,8 @@ func (db *ContractDB) parseContractFile(path, pkgPath string, prefix string, ass
 				cur.Preserves = append(cur.Preserves, splitTop(rest, ',')...)
 			case "unboxnonnil":
 				cur.UnboxNonNil = true
+			case "assumepre":
+				cur.AssumePre = true
 			case "nopanic":
 				cur.NoPanic = true
 			case "inline":
